@@ -178,7 +178,7 @@ Theorem roundtrip_min_class T O :
   Forall nopct rest -> Forall pair_okm q -> nopct frag ->
   host <> [] -> (fam =? 6) = false -> forallb (not_in [58; 64; 47; 63; 35]) host = true ->
   o_inet4 O host = MOk b4 -> decode_host O host = MOk h2 ->
-  match port with Some p => (0 <= p < 65536)%Z | None => True end ->
+  port_wf port = true ->
   to_text T O false u = MOk (rendered_min T O host (port_text T u) scheme user pw ([] :: rest) q frag) /\
   url_init T O (rendered_min T O host (port_text T u) scheme user pw ([] :: rest) q frag)
   = MOk (mkU scheme true (nfc user) (nfc pw) (if b4 then 4 else 0) h2 (port_back T u) ([] :: rest) q frag).
@@ -209,7 +209,7 @@ Theorem fixpoint_min_class T O :
   Forall nopct rest -> Forall pair_okm q -> nopct frag ->
   host <> [] -> (fam =? 6) = false -> forallb (not_in [58; 64; 47; 63; 35]) host = true ->
   o_inet4 O host = MOk b4 -> decode_host O host = MOk host ->
-  match port with Some p => (0 <= p < 65536)%Z | None => True end ->
+  port_wf port = true ->
   forall m u', to_text T O false u = MOk m -> url_init T O m = MOk u' -> to_text T O false u' = MOk m.
 Proof.
   intros TOK DOK scheme sep user pw fam host port rest q frag b4 nfc u
